@@ -89,3 +89,14 @@ Theorem C01_adjacent_token_checker_is_sound : forall v, Lex.vjit v = false -> fo
   Lex.lex_loop v (S (List.length (LexRender.render ts))) (LexRender.render ts) = Some ts.
 Proof. exact LexAdj.adj_relex. Qed.
 Print Assumptions C01_adjacent_token_checker_is_sound.
+(* ... and end to end: for a program that is well formed in the structural sense (every unary node a tree the parser can
+   return), what format0 prints - normalisation included - lexes back to the tokens of the normalised program *)
+Theorem C01_L0_formatted_text_lexes_back : forall v, Lex.vjit v = false -> forall c,
+  (Fmt0.spaces0 c = true -> Fmt0.width0 c <> 0) -> forall p, Fmt0Lex.wfb1 v c p ->
+  Lex.lex_loop v (S (List.length (Fmt0.format0 c p))) (Fmt0.format0 c p) = Some (Fmt0.pprog c (Fmt0.nprog p)).
+Proof. intros v Hj c Hw p W. exact (Fmt0Lex.format0_relexes v Hj (Fmt0.style0 c) c eq_refl Hw p W). Qed.
+Print Assumptions C01_L0_formatted_text_lexes_back.
+(* the hypotheses are met by a concrete program with a comment, a guarded double minus, a call and a nested block *)
+Theorem C01_L0_example_meets_the_hypotheses : Fmt0Lex.wfb1 Fmt0Lex.v51 Fmt0Lex.cfg_example Fmt0Lex.prog_example.
+Proof. exact Fmt0Lex.example_is_well_formed. Qed.
+Print Assumptions C01_L0_example_meets_the_hypotheses.
